@@ -72,7 +72,7 @@ def c05(tier, seed):
             for c in ("prole", "prole0")]
     runs.append(dict(cfg="proleeq", traces=w, drain=True, notime=True, preds=C05_PREDS))
     runs.append(dict(cfg="proleeq0", traces=w, drain=True, notime=True, preds=C05_PREDS))
-    for c in ("prolenat", "prolenat0"):   # the conflicting check arrives from a not yet signalled (peer-reflexive) source
+    for c in ("prolenat", "prolenat0", "prolenatw", "prolenat0w"):   # the conflicting check arrives from a not yet signalled (peer-reflexive) source
         runs.append(dict(cfg=c, traces=w, drain=True, notime=True, zerowait=True, preds=C05_PREDS + ["C05_OppositeAtEnd", "C01_Mirror", "C01_Converges"]))
     plan = {"runs": runs, "mc": [("prole", ["Mirror"], None), ("prole0", ["Mirror"], None)], "assumptions": SESSION_ASSUME}
     return session.run_property("C05", tier, seed, plan)
